@@ -330,16 +330,24 @@ CLAIMED['C02'] = {
     'technique': 'Coq proof (per-position decomposition of segment validation; mutual induction over conformant instances with a usage-counter invariant for the walker) + conformant-document generation on the implementation + extracted-model correspondence',
 }
 CLAIMED['C03'] = {
-    'text': 'PARTIAL. Theorems C03_single_element_fault_localised and C03_extra_element_rejected: replacing one simple element of a '
-            'conformant segment by a value that draws the code set cds from its definition makes validation return false with every '
-            'error filed at that position, naming that element, carrying exactly the codes of cds; one surplus element gives exactly '
-            'one error, code 3 (side conditions each shown necessary). Segment-level faults, the position/line attachment in the '
-            'error tree and the non-interference with other sets are NOT theorems: the check injects single faults of 12 kinds into '
-            'conformant documents and requires verdict False, the matching code at the source line and element position, and no '
-            'collateral error.',
+    'text': 'PARTIAL (two levels proved; error-tree attachment and set isolation by the check). (i) C03_single_element_fault_localised / '
+            'C03_extra_element_rejected: replacing one simple element of a conformant segment by a value that draws the code set '
+            'cds from its definition makes validation return false with every error filed at that position, naming that element, '
+            'carrying exactly the codes of cds; one surplus element gives exactly one error, code 3 (side conditions shown necessary). '
+            '(ii) document level for the walker: C03_unknown_segment_localised — a segment matching no node, inserted anywhere in a '
+            'conformant instance, draws exactly add_seg + seg_error 1, changes no counter, and every other item is located as before '
+            'with nothing reported; C03_single_structural_fault — one missing required segment / loop (code 3 at the first segment '
+            'after the gap, or at the next instance when the loop restarts at once: the case fixed by 279ef08), one surplus segment '
+            '(code 5) or surplus loop instance (code 4): ONE step reports exactly that fault\'s events, all other items are '
+            'located silently, counters as predicted. Corners where the walker is imprecise are machine-checked examples (missing '
+            'GE before IEA left to the reader; same-position siblings: reported twice / one segment late). The check injects 15 '
+            'fault kinds into conformant documents of the shipped maps (2 sets each) and requires verdict False, the standard code at '
+            'the segment and element of the fault, no collateral error, the other set acknowledged A; model tied on the faulted '
+            'documents.',
     'design_ref': 'DESIGN.md §6 C03, §11',
-    'note': 'Trusted: as C02; the fault catalogue of harness/props/C03.py is my reading of the property.',
-    'technique': 'Coq proof (per-position decomposition of segment validation) + single-fault injection on the implementation',
+    'note': 'Trusted: Coq kernel; hand transcriptions Element/Syntax/Validation/MapLoad/Walker/Counter; Spec/C0203_spec.v, '
+            'C03_doc_spec.v; harness fault catalogue; extraction.',
+    'technique': 'Coq proof (per-position decomposition of segment validation; mutual induction over annotated instances with a relaxed counter invariant) + single-fault injection on the implementation + extracted-model correspondence',
 }
 
 NOT_YET = {
